@@ -82,6 +82,18 @@ pub fn run(tier: Tier) {
             };
             let before = TokView::of(&unsealed_v);
             let mut objects: Vec<(&str, Tok)> = vec![("in-memory", sealed.clone())];
+            // the object returned by seal() itself (not only what its bytes reload to) is the same token
+            if let Tok::V(sv) = &sealed {
+                if TokView::of(sv) != before {
+                    ctx.violation_lazy(format!("C08/sealing-changed-the-token-in-memory/{cls}"), || json!({"case": case(), "before": format!("{before:?}"), "after": format!("{:?}", TokView::of(sv))}));
+                }
+                for code in &pan {
+                    let (a, b) = (authz(&unsealed_v, code), authz(sv, code));
+                    if a != b {
+                        ctx.violation_lazy(format!("C08/sealed-authorizes-differently-in-memory/{cls}"), || json!({"case": case(), "authorizer": code, "unsealed": a, "sealed": b}));
+                    }
+                }
+            }
             match Biscuit::from(&bytes, rootk) {
                 Ok(r) => {
                     if TokView::of(&r) != before {
@@ -159,6 +171,72 @@ pub fn run(tier: Tier) {
         &|_, _, _, _| {},
         &|_, _, _, _| {},
     );
+
+    // ---------------- tokens built on a custom base symbol table (build_with_key_pair(.., symbols, ..),
+    // reloaded with from_with_symbols): sealing keeps them the same token, in memory and after a reload
+    let custom_cases = AtomicUsize::new(0);
+    {
+        use biscuit_auth::datalog::SymbolTable;
+        let base = || {
+            let mut s = SymbolTable::new();
+            s.insert("file1");
+            s.insert("custom symbol");
+            s.insert("s");
+            s
+        };
+        let shapes: Vec<Vec<&str>> = vec![vec![], vec!["b1"], vec!["b2", "b1"], vec!["t1"], vec!["b1", "t0"], vec!["t1", "b2"]];
+        let mut cfgs = vec![];
+        for r in ALGS {
+            for first in ["b0", "b1"] {
+                for sh in &shapes {
+                    cfgs.push((r, first, sh.clone()));
+                }
+            }
+        }
+        cfgs.par_iter().for_each(|(r, first, sh)| {
+            custom_cases.fetch_add(1, Ordering::Relaxed);
+            let desc = || json!({"root": r.name(), "base_symbols": ["file1", "custom symbol", "s"], "authority": first, "appended": sh});
+            let res = guard(|| -> Result<(), String> {
+                let e = |x: biscuit_auth::error::Token| format!("{x:?}");
+                let mut t = biscuit_auth::builder::BiscuitBuilder::new().code(content_src(first)).map_err(e)?.build_with_key_pair(&root(*r), base(), &key(Alg::Ed, ROLE_NEXT, 40)).map_err(e)?;
+                for (n, c) in sh.iter().enumerate() {
+                    if c.starts_with('t') {
+                        let req = t.third_party_request().map_err(e)?;
+                        let resp = req.create_block(&k1().private(), block_of(c)).map_err(e)?;
+                        t = t.append_third_party_with_keypair(k1().public(), resp, key(Alg::Ed, ROLE_NEXT, 41 + n as u8)).map_err(e)?;
+                    } else {
+                        t = t.append_with_keypair(&key(Alg::P256, ROLE_NEXT, 41 + n as u8), block_of(c)).map_err(e)?;
+                    }
+                }
+                let before = TokView::of(&t);
+                let sealed = t.seal().map_err(e)?;
+                let mut objs: Vec<(&str, Biscuit)> = vec![("seal() in memory", sealed.clone())];
+                let reload = |b: &Biscuit| -> Result<Biscuit, String> {
+                    let bytes = b.to_vec().map_err(e)?;
+                    UnverifiedBiscuit::from_with_symbols(&bytes, base()).map_err(e)?.verify(root(*r).public()).map_err(|x| format!("{x:?}"))
+                };
+                objs.push(("unsealed reloaded with the base symbols", reload(&t)?));
+                objs.push(("sealed reloaded with the base symbols", reload(&sealed)?));
+                for (name, o) in &objs {
+                    if TokView::of(o) != before {
+                        ctx.violation_lazy(format!("C08/custom-base-symbols/token-differs/{name}"), || json!({"case": desc(), "before": format!("{before:?}"), "after": format!("{:?}", TokView::of(o))}));
+                    }
+                    for code in &pan {
+                        let (a, b) = (authz(&t, code), authz(o, code));
+                        if a != b {
+                            ctx.violation_lazy(format!("C08/custom-base-symbols/authorizes-differently/{name}"), || json!({"case": desc(), "authorizer": code, "original": a, "other": b}));
+                        }
+                    }
+                }
+                Ok(())
+            });
+            match res {
+                Ok(Ok(())) => {}
+                Ok(Err(er)) => ctx.violation_lazy("C08/custom-base-symbols/operation-failed".to_string(), || json!({"case": desc(), "error": er})),
+                Err(pn) => ctx.violation_lazy(format!("C08/panic/{}", panic_site(&pn)), || json!({"case": desc(), "panic": pn})),
+            }
+        });
+    }
 
     // ---------------- fault enumeration on sealed tokens
     let mut sealed = sealed_tokens.into_inner().unwrap();
@@ -240,6 +318,7 @@ pub fn run(tier: Tier) {
         "states_sealed_through_their_own_api": sealed_states.load(Ordering::Relaxed),
         "operations_attempted_on_sealed_tokens": ops_attempted.load(Ordering::Relaxed),
         "sealed_tokens_mutated": protos.len().min(limit),
+        "custom_base_symbol_table_configurations": custom_cases.load(Ordering::Relaxed),
         "structured_faults_on_sealed_tokens": faults.load(Ordering::Relaxed),
         "sealed_tokens_fault_injected (evenly spaced subset)": fault_injected_tokens,
         "sealed_tokens_total": protos.len(),
